@@ -1341,6 +1341,15 @@ class Engine(object):
           self.assert_schema_consistent()
       except Exception:
         log.error("Inconsistent schema after revert on failure: %s", traceback.format_exc())
+
+      # The revert re-creates columns and invalidates cells. Bring formulas back up to date, so that
+      # the document reads the same as before the failed call, and so that the recalculation is not
+      # left over for the next call to report. The resulting calc changes are discarded along with
+      # out_actions: relative to before the call, nothing has changed.
+      try:
+        self._bring_all_up_to_date()
+      except Exception:
+        log.error("Error recalculating after revert on failure: %s", traceback.format_exc())
       raise
 
     # If needed, rebuild dependencies for trigger formulas.
